@@ -127,6 +127,7 @@ def analyse(meta, run, gen_path):
         # which extracted functions do the compile errors sit in?  (used by the caller to retry with those functions
         # replaced by assumed stubs, so that a renamed local that a spliced hint mentions costs one function, not the unit)
         rej, outside = set(), 0
+        rej_names = {}
         for d in run["diags"]:
             if d.get("level") != "error" or d.get("message", "").startswith("aborting due to"):
                 continue
@@ -141,9 +142,13 @@ def analyse(meta, run, gen_path):
                             break
             if hit:
                 rej.add(hit)
+                mm = re.search(r"cannot find value `(\w+)` in this scope", d.get("message", ""))
+                if mm:
+                    rej_names.setdefault(hit, set()).add(mm.group(1))
             else:
                 outside += 1
-        undecided.append({"reason": "verus-rejected", "messages": msgs, "reject_fns": sorted(rej) if not outside else []})
+        undecided.append({"reason": "verus-rejected", "messages": msgs, "reject_fns": sorted(rej) if not outside else [],
+                          "missing_names": {k: sorted(v) for k, v in rej_names.items()}})
     for d in run["diags"]:
         if d.get("level") != "error":
             continue
